@@ -143,6 +143,11 @@ func run1(sc *Scenario, path []string, convBin string) (res result) {
 				res.canon = "stuck:" + res.pathDesc
 				return
 			}
+			if errors.Is(err, ErrPhantomWork) && i == len(path)-1 {
+				res.viol = append(res.viol, V{"C09", "c09.work-claimed-without-a-job", err.Error()})
+				res.canon = "phantom:" + res.pathDesc
+				return
+			}
 			res.hardErr = fmt.Errorf("applying %q in [%s]: %v", ev, res.pathDesc, err)
 			return
 		}
@@ -206,6 +211,11 @@ func run1(sc *Scenario, path []string, convBin string) (res result) {
 		if err := w.Step(w.ParkedNames()[0]); err != nil {
 			if errors.Is(err, ErrJobStuck) {
 				res.viol = append(res.viol, V{"C09", "c09.job-never-completes", fmt.Sprintf("while running the jobs dry (after %d steps): %v", res.drained, err)})
+				res.enabled = nil
+				return
+			}
+			if errors.Is(err, ErrPhantomWork) {
+				res.viol = append(res.viol, V{"C09", "c09.work-claimed-without-a-job", fmt.Sprintf("while running the jobs dry (after %d steps): %v", res.drained, err)})
 				res.enabled = nil
 				return
 			}
